@@ -572,3 +572,44 @@ Definition any_live (n : nat) (s : state) : bool :=
 
 (* the swap of the pinned snapshot, without the self check: documents the defect that was repaired *)
 Definition swap_unchecked_m (w other : wref) (s : state) : out state := swap_body w other s.
+
+(* ================================================================================================ *)
+(** * construction / assignment of pair and tuple over element types *)
+Inductive elem := EInt | EConstInt | ELRef | EConstLRef | ERRef | EMoveOnly | ECopyOnly.
+(* language facts about one element type T: is_default_constructible, is_copy_constructible, "an xvalue of T
+   initialises a T without selecting a deleted constructor", is_copy_assignable, is_move_assignable *)
+Record etraits := mket { e_dc : bool; e_cc : bool; e_mv : bool; e_ca : bool; e_ma : bool }.
+Definition elem_traits (e : elem) : etraits :=
+  match e with
+  | EInt => mket true true true true true
+  | EConstInt => mket true true true false false
+  | ELRef => mket false true true true true
+  | EConstLRef => mket false true true false false
+  | ERRef => mket false false true true true
+  | EMoveOnly => mket true false true false true
+  | ECopyOnly => mket true true false true false
+  end.
+(* pair.hpp: pair() requires both default constructible; pair(pair const&) = default; pair(pair&&) = default (a
+   defaulted move constructor that is defined as deleted is ignored and the copy constructor is used);
+   operator=(pair const&) requires both copy assignable; operator=(pair&&) requires both move assignable, otherwise
+   the copy assignment binds the rvalue *)
+Definition pair_traits_m (a b : elem) : list bool :=
+  let x := elem_traits a in let y := elem_traits b in
+  [ e_dc x && e_dc y;
+    e_cc x && e_cc y;
+    (e_mv x && e_mv y) || (e_cc x && e_cc y);
+    e_ca x && e_ca y;
+    (e_ma x && e_ma y) || (e_ca x && e_ca y) ].
+(* tuple.hpp: tuple() requires all default constructible; tuple(tuple const&) = default *)
+Definition tuple_traits_m (es : list elem) : list bool :=
+  [ forallb (fun e => e_dc (elem_traits e)) es; forallb (fun e => e_cc (elem_traits e)) es ].
+
+(** * small value-level behaviours *)
+(* reference_wrapper: r refers to a; r.get() += 1; copy = r; r = r2 rebinds r to b (a is not assigned);
+   r + copy through the implicit conversions: (sum, a, b) *)
+Definition refwrap_ops_m (a b : Z) : Z * Z * Z := let a' := a + 1 in (b + a', a', b).
+(* function_ref: views of plus_one and of a lambda adding a captured variable that is changed from 10 to 20 before
+   the calls; copies and rebinding view the same callable *)
+Definition fref_ops_m (v : Z) : list Z := [v + 1; v + 20; v + 20; v + 20; v + 20; v + 1].
+(* not_fn<is_neg>()(v) *)
+Definition notfn_static_m (v : Z) : bool := negb (v <? 0).
